@@ -137,6 +137,7 @@ def run_shards(worker, prop, tier, seed, nshards, outdir, limit, extra_env=None,
     procs = []
     env = goenv()
     env.pop("GOFLAGS", None)
+    env["VERIF_TSCALE"] = str(PROPS.get(prop, {}).get("tscale", 1))
     env["VERIF_KNOWN"] = os.environ.get("VERIF_KNOWN_SRC", os.path.join(VERIF, "known_findings.json"))
     if extra_env:
         env.update(extra_env)
